@@ -92,6 +92,29 @@ def random_walk(rng, d, steps):
     return d
 
 
+def twins(rng):
+    """Connected diagrams with REPEATED EQUAL boxes: the same unary box applied on several
+    parallel wires (equal boxes commute past each other), interleaved with another box."""
+    x = ("a", 0)
+    n = rng.randint(2, 3)
+
+    def bx(nm, dom, cod):
+        return dict(kind="g", name=nm, dom=dom, cod=cod, dagger=False, data=None)
+    boxes, offsets = [bx("src", [], [x] * n)], [0]
+    steps = []
+    for w in range(n):
+        steps += [(w, "f")] * rng.randint(1, 2)
+        if rng.random() < 0.5:
+            steps.append((w, "g"))
+    rng.shuffle(steps)
+    for w, nm in steps:
+        boxes.append(bx(nm, [x], [x]))
+        offsets.append(w)
+    boxes.append(bx("snk", [x] * n, []))
+    offsets.append(0)
+    return ("mk", [], [], boxes, offsets)
+
+
 def exchange_class(d, cap=250):
     """Closure of {d} under legal adjacent exchanges (both preferences), by the independent
     simulation of the exchange rule; diagrams rebuilt with the scanning public constructor."""
@@ -142,8 +165,13 @@ def run(tier, seed, replay=None):
     strategy_differs = 0
     try:
         for k in range(n_diagrams):
-            g = Gen(random.Random(rng.getrandbits(64)), rigid=False, maxw=5)
-            e, _ = g.diagram(depth=rng.choice([0, 1, 2, 3, 3, 4, 4, 5, 6, 7]))
+            if k % 5 == 4:
+                e = twins(random.Random(rng.getrandbits(64)))
+            elif k % 5 == 3:
+                e = parallel_connected(random.Random(rng.getrandbits(64)))
+            else:
+                g = Gen(random.Random(rng.getrandbits(64)), rigid=False, maxw=5)
+                e, _ = g.diagram(depth=rng.choice([0, 1, 2, 3, 3, 4, 4, 5, 6, 7]))
             d = fam.run(e)
             conn = is_connected(d)
             rep.count("connected" if conn else "disconnected")
@@ -220,10 +248,26 @@ def run(tier, seed, replay=None):
                         rep.fail("not_idempotent", case, "normal_form(normal_form(d)) != normal_form(d)")
                     if list(monoidal.Diagram.normalize(nf, left=left)):
                         rep.fail("normal_form_not_terminal", case, "normalize yields on a normal form")
+                    # the normal form is a member of the input's class: normalising IT with the
+                    # other preference must give the input's other normal form (canonicity across
+                    # a two-call history on the same object)
+                    if conn:
+                        try:
+                            other_direct = monoidal.Diagram.normal_form(d, left=not left)
+                            other_via = monoidal.Diagram.normal_form(nf, left=not left)
+                            if other_direct != other_via:
+                                rep.fail("not_canonical:via_other_normal_form", case,
+                                         "normal_form(normal_form(d, left=%s), left=%s) differs from "
+                                         "normal_form(d, left=%s)" % (left, not left, not left))
+                        except NotImplementedError:
+                            rep.fail("connected_not_normalised", case,
+                                     "NotImplementedError on a connected diagram (other preference)")
         # ---- canonicity on whole interchanger classes of connected diagrams
         explored = exhaustive = members = 0
         while explored < n_classes:
-            if explored % 2:
+            if explored % 3 == 2:
+                e = twins(random.Random(rng.getrandbits(64)))
+            elif explored % 3 == 1:
                 e = parallel_connected(random.Random(rng.getrandbits(64)))
             else:
                 g = Gen(random.Random(rng.getrandbits(64)), rigid=False, maxw=4)
